@@ -694,6 +694,10 @@ func c13Reweight(c *Ctx, a *sketchAnchors) {
 			}
 			n++
 			st := p.RetNil(0)
+			// `return store.Reweight(w)` as the last step: nil when no implementation can fail for this class
+			if r := p.RetT[0]; st == 0 && isMethodCall(r, "Reweight") && len(r.Args) == 2 && r.Args[1].isParam(1) && calleeErr&(1<<uint(wc)) == 0 {
+				st = 1
+			}
 			switch wc {
 			case 1, 2:
 				if st != -1 || len(p.Writes()) > 0 {
